@@ -9,7 +9,7 @@ PID = "C06"
 
 # bit of the model configuration (coq/C06/Corr.v: cfg_of_mask) -> finding id
 MASK_BITS = [(1, "C06-int53"), (2, "C06-fsuffix"), (4, "C06-midbatch-error-lost"), (8, "C06-plus-zero"),
-             (16, "C06-strquote"), (32, "C06-neg-dot")]
+             (16, "C06-strquote"), (32, "C06-neg-dot"), (64, "C06-ts-overflow")]
 FEXP = "C06-float-exp"
 
 
@@ -171,6 +171,10 @@ def main(ck):
                               "ts-server HTTP API (/write, /query?epoch=ns) as the end-to-end observation interface",
                               "Go harness cmd/c06 (generators, canonicaliser, direct oracle incl. strconv.ParseFloat), python driver props/C06/run.py",
                               "Section hypothesis dec2f_correct (premise of the float theorems)"]
+    # the per-property fragment is the source of the merged known_findings.json; entries not merged yet count too
+    frag = os.path.join(ck.verif, "props", PID, "findings.json")
+    have = {f["id"] for f in ck.findings}
+    ck.findings += [f for f in json.load(open(frag))["findings"] if f["property"] == PID and f["id"] not in have]
     ck.coq_audit(["C06"])
     ok = ck.coq_build(["C06/Proofs.vo", "C06/Corr.vo"])
     if ok:
